@@ -39,11 +39,19 @@ static const char* scripts[][3] = {
     {"PP", "W", "W"},    // 10
     {"P", "W", "gW"},    // 11: as 8, the second waiter starts only after the first one got in ('g' = gate)
     {"P", "P", "gWW"},   // 12: init=0: a post losing its exchange to another post, then the counter goes negative
+    {"T", "P", ""},      // 13: init=0: a failing trywait overlapping a post
+    {"TT", "P", "W"},    // 14
 };
+
+// -Dgen=K: instead of one of the scripts above, EVERY program of `fibers` fibers (default 2) with
+// at most K operations each over {W, T, P} is enumerated as an input (free choice points): the
+// quantifier "any mix of wait/trywait/post" by program size rather than by hand-picked shapes
+static char genbuf[3][8];
+static const char* cur[3];
 
 static void* body(void* p) {
   int id = (int)(intptr_t)p;
-  for (const char* s = scripts[shape][id]; *s; s++) {
+  for (const char* s = cur[id]; *s; s++) {
     if (*s == 'g') {
       // gate: this fiber goes on only after fiber 1 has finished its script. It polls with
       // fiber_yield (never an engine-level wait: a fiber that occupies its kernel thread would
@@ -93,7 +101,22 @@ int harness_main(void) {
   fiber_semaphore_init(&S, initial);
   fmc_focus(&S, sizeof S);
   fmc_begin();
-  for (g_nf = 0; g_nf < 3 && scripts[shape][g_nf][0]; g_nf++) fiber_detach(fiber_create(STK, body, (void*)(intptr_t)g_nf));
+  int gen = fmc_param("gen", 0);
+  if (gen) {
+    int nfib = fmc_param("fibers", 2);
+    for (int i = 0; i < 3; i++) cur[i] = genbuf[i];
+    for (int i = 0; i < nfib; i++) {
+      int len = 1 + fmc_input(gen);  // 1..K operations
+      for (int k = 0; k < len; k++) genbuf[i][k] = "WTP"[fmc_input(3)];
+    }
+    g_nf = nfib;
+  } else {
+    for (int i = 0; i < 3; i++) cur[i] = scripts[shape][i];
+    for (g_nf = 0; g_nf < 3 && scripts[shape][g_nf][0]; g_nf++) {}
+  }
+  int order[8];
+  rt_creation_order(g_nf, order);
+  for (int i = 0; i < g_nf; i++) fiber_detach(fiber_create(STK, body, (void*)(intptr_t)order[i]));
   // -Dspread=1: the main fiber never switches fibers (engine-level yields only), so with N=3 the
   // fibers are all stolen and run by the two OTHER kernel threads from the first step on; no
   // pre-emption is spent on getting them onto different threads
